@@ -220,6 +220,9 @@ def explore(ctx):
     n_d, nt_d, f_d, st_d = ext.date_family(rng, quick)
     failures += f_d
     evals += n_d
+    n_u, ok_u, f_u, st_u = ext.dur_family(rng, quick)
+    failures += f_u
+    evals += n_u
     cov = {
         'evaluations': evals, 'distinct_nontrivial': len(nontrivial),
         'rule': 'rows and tables with every value type incl. nested, NaN/inf (division by zero, overflow), keys needing JSON escaping, through -o json (validity, exact fields, column order, lossless values), '
@@ -229,4 +232,5 @@ def explore(ctx):
         'model_vs_impl_disagreements': sum(1 for r in jres if r['corr']),
     }
     cov['date_text_family'] = dict(st_d, texts_equal_to_the_model=n_d - len(f_d))
+    cov['duration_text_family'] = dict(st_u, texts_equal_to_the_model=ok_u)
     return {'coverage': cov, 'failures': failures}
